@@ -93,6 +93,7 @@ class _Slot:
         self.cfg = None              # how the init write behaves ('ok'|'block'|'fail')
         self.sends: list = []        # [task, reported]
         self.queued: list = []       # [queue_message task, reported]
+        self.raws: list = []         # [task of a raw data call (send_data / receive_data / send_file / ...), reported, kind]
         self.ticket = 100 + idx
         self.remote_closed = False   # the remote end closed/reset the socket while the library was reading/draining
 
@@ -101,8 +102,8 @@ def _run_impl(case: dict) -> dict:
     from aioslsk.network.network import Network, PeerFuture
     from aioslsk.network.connection import (PeerConnection, ServerConnection, ListeningConnection, CloseReason,
                                             ConnectionState, PeerConnectionState)
-    from aioslsk.events import EventBus
-    from aioslsk.exceptions import ConnectionWriteError
+    from aioslsk.events import EventBus, ConnectionStateChangedEvent
+    from aioslsk.exceptions import ConnectionWriteError, ConnectionReadError
     from aioslsk.protocol import obfuscation
     from aioslsk.protocol.messages import (PeerInit, PeerPierceFirewall, PeerSharesRequest, ConnectToPeer,
                                            CannotConnect, GetUserStatus, Ping, GetPeerAddress)
@@ -193,6 +194,100 @@ def _run_impl(case: dict) -> dict:
                 def on_init(self, ev):
                     emit(idx_of(ev.connection), 'init:req' if ev.requested else 'init:unreq')
 
+            def mark(i, tok):
+                """for the monitor only (not part of the lines compared with the model)"""
+                full.append((opno[0], i, tok))
+
+            class Gate:
+                """An application listener of ConnectionStateChangedEvent, registered BEHIND the recorder: the recorder has
+                been told (= the state has been reported) when this one runs.  `case['gate']` = [[i, STATE, mode], ...]:
+                  mode 'park'            the listener suspends until the schedule releases it (`['at', i, 'release', STATE]`);
+                  mode 'act:<what>'      the listener itself calls, from inside the notification, disconnect() /
+                                         send_message() / send_data() on the connection it is told about.
+                `log` = [op number, label, STATE, kind] with kind in pass | park | resume | cancel | act (in order)."""
+
+                def __init__(self):
+                    self.armed = {(g[0], g[1]): g[2] for g in case.get('gate', [])}
+                    self.parked: list = []           # [label, STATE, future]
+                    self.log: list = []
+                    self._l = self.on_event
+                    bus.register(ConnectionStateChangedEvent, self._l)
+
+                def hook(self, conn, lab, state):
+                    # the init message of an outgoing connection is written right after the CONNECTED notification:
+                    # how that write behaves is set up now
+                    if state == 'CONNECTED' and isinstance(lab, int) and slots[lab].origin in ('direct', 'back', 'api'):
+                        slot = slots[lab]
+                        w = libw(slot)
+                        if w is not None and not w._closed and conn.state == ConnectionState.CONNECTED:
+                            if slot.cfg == 'block':
+                                w.drain_block = True
+                            elif slot.cfg == 'fail':
+                                w.fail_after = len(w.sent)
+
+                async def on_event(self, ev):
+                    conn = ev.connection
+                    if isinstance(conn, ListeningConnection):
+                        return
+                    lab, state = idx_of(conn), ev.state.name
+                    mode = self.armed.get((lab, state))
+                    if mode is None:
+                        self.log.append([opno[0], lab, state, 'pass'])
+                        self.hook(conn, lab, state)
+                        return
+                    if mode.startswith('act:'):
+                        self.log.append([opno[0], lab, state, mode])
+                        what = mode[4:]
+                        slot = slots[lab] if isinstance(lab, int) else None
+                        try:
+                            if what == 'disconnect':
+                                await conn.disconnect(CloseReason.REQUESTED)
+                            elif what == 'send':
+                                mark(lab, 'call:send')
+                                await conn.send_message(PeerSharesRequest.Request() if not isinstance(conn, ServerConnection)
+                                                        else Ping.Request())
+                            elif what == 'sendData':
+                                k = raw_id[0] = raw_id[0] + 1
+                                mark(lab, f'call:raw:{k}:sendData')
+                                try:
+                                    await conn.send_data(b'D' * 32)
+                                    mark(lab, f'done:raw:{k}:ret')
+                                except ConnectionWriteError:
+                                    mark(lab, f'done:raw:{k}:err')
+                            else:
+                                raise ValueError(mode)
+                        except (ConnectionWriteError, ConnectionReadError):
+                            pass
+                        self.log.append([opno[0], lab, state, 'pass'])
+                        self.hook(conn, lab, state)
+                        return
+                    fut = loop.create_future()
+                    ent = [lab, state, fut]
+                    self.parked.append(ent)
+                    self.log.append([opno[0], lab, state, 'park'])
+                    try:
+                        await fut
+                        self.log.append([opno[0], lab, state, 'resume'])
+                        self.hook(conn, lab, state)
+                    except asyncio.CancelledError:
+                        self.log.append([opno[0], lab, state, 'cancel'])
+                        raise
+                    finally:
+                        if ent in self.parked:
+                            self.parked.remove(ent)
+
+                def is_parked(self, lab, state) -> bool:
+                    return any(e[0] == lab and e[1] == state and not e[2].done() for e in self.parked)
+
+                def release(self, lab, state):
+                    for e in self.parked:
+                        if e[0] == lab and e[1] == state and not e[2].done():
+                            e[2].set_result(None)
+                            return True
+                    return False
+
+            raw_id = [0]
+
             server = SimServer()
             lookup: dict = {}         # username -> (ip, regular port, obfuscated port) answered to GetPeerAddress
 
@@ -211,16 +306,19 @@ def _run_impl(case: dict) -> dict:
                 bus, net, server, srv_task = await start_network(loop, fn, settings_of(), server=server)
                 srv_tasks = [srv_task]
             obs = Obs(bus, idx_of)
+            gate = Gate()
             seen_cc = [0]
 
             def setup_for(slot):
                 def setup(w):
-                    w.close_block = bool(slot.slow)
+                    # slow: 0 wait_closed() returns at once, 1 it suspends, 2 the peer has stopped reading with output
+                    # still queued (close() leaves the transport alive, see GatedWriter.stall), 3 it raises at once
+                    w.close_block = slot.slow in (1, 2)
+                    w.stall = slot.slow == 2
+                    if slot.slow == 3:
+                        w.close_exc = ConnectionResetError('connection lost (fake)')
                     w.on_write = lambda data, i=slot.idx, w=w: emit(writer_label(w, i), 'wrote')
-                    if slot.cfg == 'block':
-                        w.drain_block = True
-                    elif slot.cfg == 'fail':
-                        w.fail_after = 0
+                    # (how the init write behaves is set up by Gate.hook, when the CONNECTED notification returns)
                 return setup
 
             def writer_label(w, default):
@@ -265,7 +363,21 @@ def _run_impl(case: dict) -> dict:
                 return any(not t.done() for t, _ in slot.queued)
 
             def user_tasks(slot):
-                return [t for t, _ in slot.sends] + [t for t, _ in slot.queued]
+                return [t for t, _ in slot.sends] + [t for t, _ in slot.queued] + [e[0] for e in slot.raws]
+
+            def raw_parked(slot, kinds) -> list:
+                return [e[0] for e in slot.raws if not e[0].done() and e[2] in kinds]
+
+            RAW_READS = ('recvData', 'recvEof', 'recvEofQuiet', 'recvFile')
+            RAW_SENDS = ('sendData', 'sendFile')
+
+            def raw_reading(slot) -> bool:
+                """a raw read of the slot is parked in the stream reader"""
+                for t in raw_parked(slot, RAW_READS):
+                    names = [n for n, _ in _frames_of(t)]
+                    if '_read' in names:
+                        return True
+                return False
 
             def attempt_send_timer(slot):
                 """the send timer of the task that sets the connection up (not of a send / queue_message call)"""
@@ -348,19 +460,42 @@ def _run_impl(case: dict) -> dict:
                 awaiting = (slot.origin == 'incoming' and at is not None and not at.done() and c is not None
                             and c.connection_state == PeerConnectionState.AWAITING_INIT and sock_open(slot))
                 reader = c is not None and c._reader_task is not None and not c._reader_task.done() and sock_open(slot)
-                if name in ('firstFrame', 'frame', 'partialEof', 'eof', 'reset') and slot.remote_closed:
+                if name == 'release':
+                    return gate.is_parked(slot.idx, arg)
+                if name in ('firstFrame', 'frame', 'partialEof', 'eof', 'reset', 'data') and slot.remote_closed:
                     return False              # the remote end is gone: it sends / closes nothing any more
                 if name == 'firstFrame':
                     return awaiting
                 if name == 'frame':
                     return reader
-                if name in ('partialEof', 'eof', 'readTimeout'):
+                rawr = c is not None and sock_open(slot) and raw_reading(slot)
+                if name == 'data':
+                    return rawr               # raw bytes for a parked receive_data / receive_file / receive_until_eof
+                if name == 'partialEof':
                     return reader or awaiting
+                if name == 'eof':
+                    return reader or awaiting or rawr
+                if name == 'readTimeout':
+                    return (reader or awaiting or rawr) and find_timer(loop, c, 'read') is not None
                 w = libw(slot)
+                if name in RAW_SENDS or name in RAW_READS:
+                    # the raw data paths of a file connection (what the transfer code calls once the connection is
+                    # initialised); one parked call of each direction at a time
+                    if c is None or c.state == ConnectionState.UNINITIALIZED or not slot.typF:
+                        return False
+                    if slot.origin == 'incoming' and c.connection_state == PeerConnectionState.AWAITING_INIT:
+                        return False
+                    if slot.task is not None and not slot.task.done():
+                        return False
+                    if name in RAW_READS:
+                        return not raw_parked(slot, RAW_READS)
+                    return not raw_parked(slot, RAW_SENDS) and not (arg == 'block' and w is not None and w.drain_parked())
+                if name == 'unstall':
+                    return w is not None and w.stall and not w._closed
                 if name == 'reset':
                     if not sock_open(slot):
                         return False
-                    if reader or awaiting:
+                    if reader or awaiting or rawr:
                         return True
                     if w is None or not w.drain_parked():
                         return False
@@ -377,6 +512,8 @@ def _run_impl(case: dict) -> dict:
                 if name == 'queueTimeout':
                     return any(not t.done() and find_timer(loop, c, 'send', t) is not None for t, _ in slot.queued)
                 if name == 'closeDone':
+                    if arg == 'timeout':
+                        return w is not None and w.close_parked() and find_timer(loop, c, 'close') is not None
                     return w is not None and w.close_parked()
                 if name == 'send':
                     if c is None or c.state == ConnectionState.UNINITIALIZED:
